@@ -26,7 +26,7 @@ func init() {
 	register(&Rule{ID: "C10.confine", Floor: 2,
 		Text: "every value ToBasePath can return is the base path itself or the base path joined with the OS-aware Clean of a rooted (IsAbs) virtual path, so that '..' elements are clamped at the virtual root; never the unmodified parameter",
 		Run:  c10Confine})
-	register(&Rule{ID: "C10.prefix", Floor: 1, Also: []string{"C14"},
+	register(&Rule{ID: "C10.prefix", Floor: 1, Also: []string{"C14", "C07"},
 		Text: "the stored base path prefix is the absolute, cleaned form computed by the base file system (result of baseFS.Abs), so that prefix tests and prefix stripping agree with the paths the base returns",
 		Run:  c10Prefix})
 	register(&Rule{ID: "C10.total", Floor: 4,
